@@ -18,6 +18,7 @@ type Timer struct {
 	armed  bool
 	fn     func()
 	period int64
+	seq    int // order in which the timer was last armed
 	Site   string
 	s      *Sched
 }
@@ -53,7 +54,8 @@ func NewTimer(d time.Duration, fn func(), period time.Duration) *Timer {
 		panic("vsched: timers need a live execution")
 	}
 	s.timerID++
-	t := &Timer{ID: s.timerID, when: deadline(s, d), armed: true, fn: fn, period: int64(period), Site: caller(3), s: s}
+	s.armSeq++
+	t := &Timer{ID: s.timerID, when: deadline(s, d), armed: true, fn: fn, period: int64(period), Site: caller(3), s: s, seq: s.armSeq}
 	if fn == nil {
 		t.C = make(chan time.Time, 1)
 	}
@@ -94,6 +96,8 @@ func (t *Timer) Reset(d time.Duration) bool {
 	}
 	t.when = deadline(t.s, d)
 	t.armed = true
+	t.s.armSeq++
+	t.seq = t.s.armSeq
 	raceReleaseMerge(t) // starting a timer happens before its function runs
 	if t.period > 0 {
 		t.period = int64(d)
@@ -127,7 +131,8 @@ func (x *timerSorter) less(i, j int) bool {
 	if x.ts[i].when != x.ts[j].when {
 		return x.ts[i].when < x.ts[j].when
 	}
-	return x.ts[i].ID < x.ts[j].ID
+	// same deadline: the one armed first (not the one created first: a recycled object brings an old timer along)
+	return x.ts[i].seq < x.ts[j].seq
 }
 
 // Fire advances the clock to t's deadline and fires it. Driver only; follow with Run.
